@@ -501,7 +501,7 @@ impl PreprocessorParser {
     requires old(context).mapper.v_next() < usize::MAX,
         s < 0x100000, e < 0x100000,          // what raw_addr delivers (unit numbers: value modulo 1 MB)
     ensures
-        s + e >= 0x100000 ==> r.is_err() && final(out).code@ == old(out).code@ && final(context).mapper.v_next() == old(context).mapper.v_next(), //# C17,C14 asm.print_range_past_the_end_of_memory_is_refused
+        s + e >= 0x100000 ==> r.is_err() && final(out).code@ == old(out).code@ && final(context).mapper.v_next() == old(context).mapper.v_next(), //# C17,C14,C10 asm.print_range_past_the_end_of_memory_is_refused
         s + e < 0x100000 ==> r.is_ok() && final(out).code@.len() == old(out).code@.len() + 1
             && final(out).code@.subrange(0, old(out).code@.len() as int) == old(out).code@
             && final(context).mapper.v_next() == old(context).mapper.v_next() + 1,
